@@ -71,6 +71,16 @@ CHECKS = {
    "Generated-history search: a long-lived ExecutionEngine is fed line by line as follow mode does; for every prefix k the shown table (aggregate) or the emitted rows (select) are compared, as printed JSON records, with a fresh FileExecutor batch run over exactly the first k lines. Exploration over statements and histories, exhaustive over k within each case.",
    "Statements without LIMIT and without join (follow mode supports no join); the incremental table is rendered by the real OutputPrinter.",
    "DESIGN.md §3 C11"),
+ "C15": (True,
+   "property-based testing: metamorphic relations (permutation invariance of the result table; key-wise combination of the results over every cut of the input)",
+   "Generated-input search: order-insensitive aggregate statements over small-domain data with exactly representable REAL sums; the printed table must be identical for 3 permutations of the lines, and for every cut of the input the groups of the whole must be the union of the parts' groups with COUNT/SUM adding and MIN/MAX/BOOL_AND/BOOL_OR combining. Exploration over statements and data, exhaustive over cut points within each case.",
+   "Cut relation only for statements without HAVING; AVG/STDDEV/PERCENTILE/COUNT(DISTINCT) are checked by permutation only.",
+   "DESIGN.md §3 C15"),
+ "C16": (True,
+   "property-based testing of algebraic laws (trichotomy, antisymmetry, reflexivity, transitivity, agreement of =, <, hashing consumers) observed through queries; bounded-exhaustive over special-value pools",
+   "Generated + enumerated search: pairs/triples from per-type pools containing every special value are put into rows and the comparison facts read through WHERE-style expressions; GROUP BY, DISTINCT, COUNT(DISTINCT), MIN/MAX, PERCENTILE(0/1), JOIN, IN and array_unique must agree with the same = and <; non-NaN values are also checked against the reference order; INT x REAL by numeric value. All pool pairs (quick) / triples (thorough) are enumerated.",
+   "Laws are observed behaviourally (a repair may live in Value or in its consumers); any total order is accepted for NaN; TZ=UTC.",
+   "DESIGN.md §3 C16"),
 }
 
 NOT_YET = {
